@@ -1,7 +1,8 @@
 import XvcGit.Model
 /-!
   Line-protocol driver for the Git model: `lib/c15.py` describes a real repository state (trees of
-  the referenced commits, refs, HEAD, index, work tree, stash tags), the settings of one xvc
+  the referenced commits, refs, HEAD, index, work tree, stash tags; all paths relative to the top of
+  the Git work tree), the directory of the Xvc root inside it (`root`), the settings of one xvc
   invocation and the xvc-side writes it observed; `run` answers with the state the model predicts.
 -/
 open Git
@@ -18,6 +19,7 @@ structure DState where
   toBranch : Option String := none
   fromRef : Option String := none
   old : Bool := false
+  root : Path := []                       -- the Xvc root inside the Git work tree (`root proj/sub`; `root -` = Git root)
   phases : List (Change × Bool) := []     -- reversed
 
 def parsePath (s : String) : Path := s.splitOn "/"
@@ -47,7 +49,7 @@ def addChange (phs : List (Change × Bool)) (e : Path × Option Blob) : List (Ch
 
 def runModel (st : DState) : String :=
   let g : G := ⟨st.commits, st.refs, st.head, st.index, st.wt, st.stash⟩
-  let spec := if st.old then oldSpec else isXvcPath
+  let spec := if st.old then oldSpec else isXvcPathAt st.root
   let o := xvcInvocation spec st.cfg st.skipGit "m" st.fromRef st.toBranch g st.phases.reverse
   let n := st.commits.length
   let newc := (o.g.commits.drop n).map (fun c =>
@@ -85,6 +87,7 @@ def step (st : DState) (line : String) : DState × String :=
   | ["cfg", u, ac, as, sk, tb, fr, old] =>
     ({ st with cfg := ⟨asBool u, asBool ac, asBool as⟩, skipGit := asBool sk, toBranch := opt tb, fromRef := opt fr,
                old := asBool old }, "ok")
+  | ["root", p] => ({ st with root := if p == "-" then [] else parsePath p }, "ok")
   | ["phase", h] => ({ st with phases := ([], asBool h) :: st.phases }, "ok")
   | ["ch", p, b] => ({ st with phases := addChange st.phases (parsePath p, opt b) }, "ok")
   | ["run"] => (st, runModel st)
